@@ -489,6 +489,24 @@ class C01(Prop):
             yield {"kind": "calibration", "name": name, "prog": prog, "data": data, "want": want, "cfg": DEFAULT_CFG,
                    "layout": 1000 + i}
 
+        # block tags with an empty body between every pair of markers: which marker trims the text that follows
+        # the end tag (a case tag may have no when at all)
+        marks = ["", "-", "~", "+"]
+        for right_open in marks:
+            for right_end in marks:
+                for cfg in (0, 1, 2):
+                    for lead in ("", " "):
+                        stmts = [
+                            {"t": "case", "e": ["int", 1], "whens": [], "wc": ["", right_open], "wc_end": ["", right_end],
+                             "wc_whens": [], "wc_else": ["", ""], "else": None, "lead_ws": lead},
+                            {"t": "if", "cond": ["false"], "body": [], "elsifs": [], "else": None,
+                             "wc": ["", right_open], "wc_end": ["", right_end]},
+                        ]
+                        for stmt in stmts:
+                            main = [{"t": "text", "s": "[ \n"}, stmt, {"t": "text", "s": " \n b]"}]
+                            yield {"kind": "prog", "prog": {"main": main, "templates": {}}, "data": {}, "cfg": cfg,
+                                   "layout": 0}
+
         # every modelled filter with every argument replaced in turn by a value of each type (the model answers
         # `unsup` where the reference does not say what happens)
         from lv.gen.grammar import FILTERS as GF
